@@ -11,6 +11,8 @@
 //   CORPUS which                                               -> "CORPUS which d_ray g_ray d_multi g_multi" (hex)
 //   SCENE seed nb nray usegroup g0..g5 flg_static bodyexclude cutoff  -> multi-line report, ends "END"
 #include <math.h>
+#include <setjmp.h>
+#include <signal.h>
 #include <stdio.h>
 #include <stdlib.h>
 #include <string.h>
@@ -18,6 +20,19 @@
 #include <mujoco/mujoco.h>
 #include "mjgen.h"
 #include "engine/engine_ray.c"
+
+// a crash (SIGSEGV / SIGFPE / SIGBUS) inside one command is attributed to that command: the handler jumps
+// back to the command loop, which prints a CRASH line (multi-line commands also print END)
+static sigjmp_buf crash_jmp;
+static volatile sig_atomic_t crash_armed = 0;
+static void on_crash(int sig) {
+  if (crash_armed) { crash_armed = 0; siglongjmp(crash_jmp, sig); }
+  signal(sig, SIG_DFL); raise(sig);
+}
+static void install_crash_handlers(void) {
+  struct sigaction sa; memset(&sa, 0, sizeof(sa)); sa.sa_handler = on_crash; sa.sa_flags = SA_NODEFER;
+  sigaction(SIGSEGV, &sa, NULL); sigaction(SIGBUS, &sa, NULL); sigaction(SIGFPE, &sa, NULL);
+}
 
 static void gname(char* buf, int i) { snprintf(buf, 32, "g%d", i); }
 static const char* oneline(const char* msg) {
@@ -64,6 +79,11 @@ static mjSpec* scene_spec(uint64_t seed, int nb) {
     mjsBody* sb = mjs_addBody(world, NULL); snprintf(nm, 32, "b%d", nbody); mjs_setName(sb->element, nm); bodies[nbody++] = sb;
     for (int i = 0; i < 3; i++) sb->pos[i] = mjg_range(r, -side, side);
     add_geoms(r, sb, 1 + mjg_int(r, 3), &ngeom, 1, sz);
+    if (mjg_chance(r, 0.5)) {    // jointless grandchild: still welded to the world
+      mjsBody* sc = mjs_addBody(sb, NULL); snprintf(nm, 32, "b%d", nbody); mjs_setName(sc->element, nm); bodies[nbody++] = sc;
+      for (int i = 0; i < 3; i++) sc->pos[i] = mjg_range(r, -0.4, 0.4);
+      add_geoms(r, sc, 1 + mjg_int(r, 2), &ngeom, 0, sz);
+    }
   }
   if (mjg_chance(r, 0.4)) {      // mocap body
     mjsBody* mb = mjs_addBody(world, NULL); snprintf(nm, 32, "b%d", nbody); mjs_setName(mb->element, nm); bodies[nbody++] = mb;
@@ -127,6 +147,8 @@ static void run_scene(void) {
     printf("G %d %d %d %d %d %d %d %d %a\n", g, m->geom_type[g], m->geom_bodyid[g], mat, m->geom_rgba[4 * g + 3] == 0,
            mat >= 0 ? (m->mat_rgba[4 * mat + 3] == 0) : 0, m->body_weldid[m->geom_bodyid[g]], m->geom_group[g], m->geom_rbound[g]);
   }
+  for (int b = 0; b < m->nbody; b++)
+    printf("B %d %d %d %d\n", b, m->body_parentid[b], m->body_jntnum[b], m->body_mocapid[b] >= 0);
   // ray origins: a few per scene; directions random, some axis-aligned
   mjg_rng R = { seed * 0x2545F4914F6CDD1DULL + 31 }; mjg_rng* r = &R;
   double side = 0.5 + 0.45 * cbrt((double)nb);
@@ -162,7 +184,7 @@ static void run_scene(void) {
     }
     // normals agree between the two entry points when both hit
     int nsame = 1;
-    if (d1 >= 0 && dist[k] == d1 && gid[k] == g1) for (int i = 0; i < 3; i++) if (n1[i] != nrm[3 * k + i]) nsame = 0;
+    if (d1 >= 0 && dist[k] == d1 && gid[k] == g1 && g1 >= 0 && g1 < m->ngeom) for (int i = 0; i < 3; i++) if (n1[i] != nrm[3 * k + i]) nsame = 0;
     printf(" %d\n", nsame);
   }
   // geometry of every (primitive) geom: N-correspondence for plane / sphere / box, analytic oracle for all
@@ -244,7 +266,18 @@ static void run_corpus(int which) {
 int main(void) {
   mjg_install_handlers();
   char op[16];
+  install_crash_handlers();
   while (scanf("%15s", op) == 1) {
+    int sig = sigsetjmp(crash_jmp, 1);
+    if (sig) {
+      // drop the rest of the input line of the crashed command, report, go on
+      int ch; while ((ch = getchar()) != EOF && ch != '\n') {}
+      printf("\nCRASH %s signal %d\n", op, sig);
+      if (!strcmp(op, "SCENE")) printf("END\n");
+      printf("#EOC\n"); fflush(stdout);
+      continue;
+    }
+    crash_armed = 1;
     if (!strcmp(op, "ELIM")) {
       int bodyid, bodyexclude, matid, ga0, ma0, flg, weld, use, group; mjtByte gg[6];
       if (scanf("%d %d %d %d %d %d %d", &bodyid, &bodyexclude, &matid, &ga0, &ma0, &flg, &weld) != 7 || !rd_group(gg, &use) || scanf("%d", &group) != 1) return 2;
@@ -254,7 +287,10 @@ int main(void) {
       float mrgba[4 * 4]; for (int i = 0; i < 16; i++) mrgba[i] = 1.0f;
       if (matid >= 0 && matid < 4) mrgba[4 * matid + 3] = ma0 ? 0.0f : 0.7f;
       int weldid[8]; for (int i = 0; i < 8; i++) weldid[i] = 1; if (bodyid >= 0 && bodyid < 8) weldid[bodyid] = weld;
+      int parentid[8] = {0, 0, 1, 2, 3, 4, 5, 6};
+      fm.nbody = 8; fm.ngeom = 1; fm.nmat = 4;
       fm.geom_bodyid = gb; fm.geom_matid = gm; fm.geom_group = ggrp; fm.geom_rgba = grgba; fm.mat_rgba = mrgba; fm.body_weldid = weldid;
+      fm.body_rootid = weldid; fm.body_parentid = parentid;     // other tables stay NULL: a read there is reported as CRASH
       printf("%d\n", ray_eliminate(&fm, NULL, 0, use ? gg : NULL, (mjtBool)flg, bodyexclude));
     } else if (!strcmp(op, "QUAD")) {
       double a, b, c; if (scanf("%la %la %la", &a, &b, &c) != 3) return 2;
@@ -269,6 +305,8 @@ int main(void) {
     else if (!strcmp(op, "CORPUS")) { int w; if (scanf("%d", &w) != 1) return 2; run_corpus(w); }
     else if (!strcmp(op, "SCENE")) run_scene();
     else return 3;
+    crash_armed = 0;
+    printf("#EOC\n");
   }
   return 0;
 }
